@@ -9,6 +9,8 @@ import (
 	"runtime"
 	"sort"
 	"time"
+
+	jsonrpc "github.com/filecoin-project/go-jsonrpc"
 )
 
 // Driver "ws": runs protocol scenarios (one per input line {"sc": name, "args": {...}}) against a fresh World each
@@ -147,7 +149,11 @@ func runWS(env *Env) error {
 		seed := env.Seed*100003 + int64(i)
 		rec := NewRecorder(seed, hooks)
 		rng := rand.New(rand.NewSource(seed))
-		w, err := NewWorld(rec, args.Bool("reverse"))
+		var sopts []jsonrpc.ServerOption
+		if ms := args.Int("srvpingms", -1); ms >= 0 {
+			sopts = append(sopts, jsonrpc.WithServerPingInterval(time.Duration(ms)*time.Millisecond))
+		}
+		w, err := NewWorld(rec, args.Bool("reverse"), sopts...)
 		if err != nil {
 			return err
 		}
